@@ -4,9 +4,11 @@
 package wasp
 
 import (
+	"context"
 	"fmt"
 	"reflect"
 
+	"github.com/vx-labs/mqtt-protocol/packet"
 	"github.com/vx-labs/wasp/v4/wasp/ack"
 	"github.com/vx-labs/wasp/v4/wasp/distributed"
 )
@@ -67,4 +69,13 @@ func VerifNewWriter(peerID uint64, subscriptions distributed.SubscriptionsState,
 // VerifWriterPool exposes the pool of a writer built by NewWriter/VerifNewWriter.
 func VerifWriterPool(w Writer) VerifMIDPool {
 	return verifPool{p: w.(*writer).midPool.(*simpleMidPool)}
+}
+
+// VerifWriterDeliver runs one delivery exactly as the writer's run loop does for a direct send
+// (writer lock held around send), without the queue and the goroutine.
+func VerifWriterDeliver(ctx context.Context, w Writer, recipients []string, qosses []int32, p *packet.Publish) {
+	wr := w.(*writer)
+	wr.mtx.Lock()
+	wr.send(ctx, recipients, qosses, p)
+	wr.mtx.Unlock()
 }
